@@ -1684,6 +1684,10 @@ class FlowProposal(RejectionProposal):
                         f"loading {old_weights_file} instead"
                     )
                     self.flow.reload_weights(old_weights_file)
+                    # Move the unreadable file out of the way, otherwise the
+                    # next call to `save_weights` would move it over the
+                    # valid weights in `<weights_file>.old`.
+                    os.replace(weights_file, weights_file + ".corrupt")
             elif os.path.exists(old_weights_file):
                 self.flow.reload_weights(old_weights_file)
         else:
